@@ -60,6 +60,20 @@ def c07_runs(tier):
 
 
 PROPS = {
+    "C15": {
+        "engine": "enumeration + rapidcheck",
+        "technique": "exact-size heap buffers under ASan + canaries over an enumerated (value x every length) grid and rapidcheck-generated values; oracle: bounded write, NUL placement, returned length, prefix of the full text",
+        "level": "every printable unit, special tag, a set of doubles, dtostre precisions/flags, quoted texts with doubled quotes at every "
+                 "position and integer extremes crossed with every buffer length 0..40 (thorough 0..70), plus random values and lengths, "
+                 "in the printf and the USE_CUSTOM_DTOSTRE build",
+        "level_note": "memory errors are observed through ASan red zones of exact-size allocations (length 0 = one-past-end pointer); the full "
+                      "text used for the prefix check comes from the same function with a 160-byte buffer",
+        "design_ref": "DESIGN.md section 4, C15",
+        "runs": simple("c15", cfgs=("default", "dtostre")),
+        "rule": "case = (function, value, buffer length); grid cases are distinct by construction, random ones by hash; non-trivial = full "
+                "text length >= buffer length - 1 (tight or truncated)",
+        "assumptions": COMMON_ASSUME + ["SCPI_dtostre precision 1..15; ParamCopyText fed through the maintainers' lex_state shortcut"],
+    },
     "C16": {
         "engine": "rapidcheck + enumeration",
         "technique": "differential against libstdc++ std::to_chars (Ryu) for the printf build; exact decimal distance oracle (__int128) for the built-in formatter at every precision",
